@@ -45,7 +45,7 @@ m = {
     }],
     'checks': checks,
     'not_applicable': na,
-    'notes': 'See DESIGN.md and CONVENTIONS.md. KNOWN_FINDINGS.jsonl lists recorded and fixed defects.',
+    'notes': 'See DESIGN.md and CONVENTIONS.md. KNOWN_FINDINGS.txt lists recorded (known:) and repaired (fixed:) defects; coverage/SUMMARY.md has the measured implementation line coverage of the anchored mechanisms; seeded/ holds 160 confirmed breaking changes and seeded/RESULTS.json which check catches each.',
 }
 json.dump(m, open(os.path.join(HERE, 'MANIFEST.json'), 'w'), indent=1)
 print(f'{len(checks)} claimed, {len(na)} unclaimed')
